@@ -252,13 +252,24 @@ func rewriteFile(p *packages.Package, f *ast.File, fe *fileEdits, st *stats, rel
 	suppress := map[*ast.ChanType]bool{}
 	selN := 0
 	src := func(n ast.Node) string { return string(fe.src[off(n.Pos()):off(n.End())]) }
+	// every channel and value expression of a select is evaluated exactly once, in source order, as an argument of
+	// zzsim.Select - as the Go spec prescribes for select - so arbitrary expressions (method calls) are fine
 	simpleChanExpr := func(e ast.Expr) bool {
 		switch x := ast.Unparen(e).(type) {
 		case *ast.Ident:
 			return true
 		case *ast.SelectorExpr:
-			_, ok := x.X.(*ast.Ident)
-			return ok
+			// a.b.c: chains of field selections are side-effect free and may be evaluated twice
+			for {
+				switch y := x.X.(type) {
+				case *ast.Ident:
+					return true
+				case *ast.SelectorExpr:
+					x = y
+					continue
+				}
+				return false
+			}
 		}
 		return false
 	}
@@ -280,14 +291,10 @@ func rewriteFile(p *packages.Package, f *ast.File, fe *fileEdits, st *stats, rel
 			switch c := cc.Comm.(type) {
 			case *ast.SendStmt:
 				inSelectComm[c] = true
-				if !simpleChanExpr(c.Chan) {
-					unsupported(c.Pos(), "select send on a complex channel expression")
-					return
-				}
 				cases = append(cases, fmt.Sprintf("%s.SendCase(%s)", src(c.Chan), src(c.Value)))
 			case *ast.ExprStmt:
 				u, ok := ast.Unparen(c.X).(*ast.UnaryExpr)
-				if !ok || u.Op != token.ARROW || !simpleChanExpr(u.X) {
+				if !ok || u.Op != token.ARROW {
 					unsupported(c.Pos(), "select clause that is not a plain receive")
 					return
 				}
@@ -298,7 +305,7 @@ func rewriteFile(p *packages.Package, f *ast.File, fe *fileEdits, st *stats, rel
 				cases = append(cases, fmt.Sprintf("%s.RecvCase(&%s)", src(u.X), slot))
 			case *ast.AssignStmt:
 				u, ok := ast.Unparen(c.Rhs[0]).(*ast.UnaryExpr)
-				if !ok || u.Op != token.ARROW || !simpleChanExpr(u.X) || len(c.Rhs) != 1 || len(c.Lhs) > 2 {
+				if !ok || u.Op != token.ARROW || len(c.Rhs) != 1 || len(c.Lhs) > 2 {
 					unsupported(c.Pos(), "select clause that is not a plain receive assignment")
 					return
 				}
@@ -339,6 +346,7 @@ func rewriteFile(p *packages.Package, f *ast.File, fe *fileEdits, st *stats, rel
 		fe.add(off(n.Body.Rbrace)+1, 0, " }")
 		st.ChanOps++
 	}
+	_ = simpleChanExpr
 	ast.Inspect(f, func(n ast.Node) bool {
 		switch n := n.(type) {
 		case *ast.BlockStmt:
